@@ -25,16 +25,14 @@ def refRepr (P : Char → Bool) : RV → Str
   | .other r bn => if r.head? == some '<' then bn.getD r else r
   | .seq k items =>
     let b := k.brackets
-    match items, b.empty with
-    | .nil, some e => e
-    | _, _ =>
+    if items.count == 0 then b.empty.getD (b.left ++ b.right)
+    else
       let ps := refItems P items
       let pieces := (if b.sorted then possiblySorted ps else ps).map (·.2)
       b.left ++ joinSep pieces ++ (if pieces.length == 1 then b.trail else []) ++ b.right
   | .dict entries =>
-    match entries with
-    | .nil => "{}".toList
-    | _ => '{' :: joinSep ((possiblySorted (refEntries P entries)).map (·.2)) ++ ['}']
+    if entries.count == 0 then "{}".toList
+    else '{' :: joinSep ((possiblySorted (refEntries P entries)).map (·.2)) ++ ['}']
   | .nil => []
   | .cons _ _ => []
 
@@ -52,10 +50,6 @@ def refTrace (P : Char → Bool) (v : RV) : Str := replQ (refRepr P v)
 
 /-! ### values within the limits -/
 
-def RV.count : RV → Nat
-  | .cons _ rest => rest.count + 1
-  | _ => 0
-
 mutual
 /-- the value is within the limits `L` when rendered with `level` nesting levels left: no
     container is nested deeper, none has more items than its kind's limit, no leaf's text is longer
@@ -65,13 +59,9 @@ def fitsAt (L : Limits) (P : Char → Bool) : RV → Nat → Bool
   | .str s, _ => (pyStrRepr P s).length ≤ L.maxstring
   | .other r _, _ => r.length ≤ L.maxother
   | .seq k items, level =>
-    (match items with
-     | .nil => true
-     | _ => level != 0) && items.count ≤ k.limit L && fitsItems L P items (level - 1)
+    (items.count == 0 || level != 0) && items.count ≤ k.limit L && fitsItems L P items (level - 1)
   | .dict entries, level =>
-    (match entries with
-     | .nil => true
-     | _ => level != 0) && entries.count ≤ 2 * L.maxdict && fitsItems L P entries (level - 1)
+    (entries.count == 0 || level != 0) && entries.count ≤ 2 * L.maxdict && fitsItems L P entries (level - 1)
   | .nil, _ => true
   | .cons _ _, _ => true
 
